@@ -112,7 +112,7 @@ fn grid(tier: Tier) -> Vec<C18World> {
         w.profile = if i % 3 == 0 { "release".into() } else { "debug".into() };
         g.push(w);
     }
-    for (kind, n, op, stack, prof) in [("boolean_fan", 30_000u64, "union", 2u64 << 20, "debug"), ("boolean", 20_000u64, "intersection", 2u64 << 20, "debug"), ("boolean", 30_000, "difference", 2 << 20, "debug"), ("boolean_stairs", 30_000, "union", 2 << 20, "debug")] {
+    for (kind, n, op, stack, prof) in [("boolean_fan", 14_000u64, "union_right", 2u64 << 20, "debug"), ("boolean_fan", 30_000u64, "union", 2u64 << 20, "debug"), ("boolean", 20_000u64, "intersection", 2u64 << 20, "debug"), ("boolean", 30_000, "difference", 2 << 20, "debug"), ("boolean_stairs", 30_000, "union", 2 << 20, "debug")] {
         let mut w = base(kind, stack, n, "asc", "drop");
         w.op = op.into();
         w.profile = prof.into();
@@ -121,7 +121,9 @@ fn grid(tier: Tier) -> Vec<C18World> {
     for (kind, n, op, stack) in [("boolean_nested", 100_000u64, "union", 8u64 << 20), ("boolean_nested", 60_000, "intersection", 2 << 20),
         ("boolean_nested", 100_000, "difference", 8 << 20), ("boolean_grid", 100_000, "xor", 2 << 20), ("boolean_grid", 120_000, "union", 8 << 20),
         ("boolean_fan", 120_000, "union", 2 << 20), ("boolean_fan", 300_000, "xor", 8 << 20),
-        ("boolean_row", 60_000, "union", 2 << 20), ("boolean_row", 250_000, "xor", 8 << 20)] {
+        ("boolean_row", 60_000, "union", 2 << 20), ("boolean_row", 250_000, "xor", 8 << 20),
+        ("boolean_nested", 120_000, "intersection_dot", 2 << 20), ("boolean_nested", 120_000, "difference_dot", 2 << 20),
+        ("boolean_nested", 120_000, "xor", 2 << 20)] {
         let mut w = base(kind, stack, n, "asc", "drop");
         w.op = op.into();
         g.push(w);
@@ -459,6 +461,9 @@ fn nested_scenario(w: &C18World) {
     let r = match w.op.as_str() {
         "intersection" => a.intersection(&half),
         "difference" => half.difference(&a),
+        // a small polygon inside the innermost ring: the whole nest lies below the only result contour
+        "intersection_dot" => a.intersection(&dot),
+        "difference_dot" => dot.difference(&a),
         "xor" => a.xor(&dot),
         _ => a.union(&dot),
     };
@@ -488,7 +493,11 @@ fn grid_scenario(w: &C18World) {
 /// (parts touching in a point are valid). Tens of thousands of result edges share that vertex.
 fn fan_scenario(w: &C18World) {
     let n = w.n.max(1);
+    // the many blades open to the left of the common vertex; "union_right": to the right (mirrored; the vertex search of the
+    // ring assembly is quadratic in the vertex degree there, so this variant is kept small)
+    let flip = if w.op == "union_right" { -1.0 } else { 1.0 };
     let blade = |side: f64, i: u64| {
+        let side = side * flip;
         let y = 2.0 * i as f64 - n as f64;
         Polygon::new(LineString(vec![Coord { x: 0.0, y: 0.0 }, Coord { x: side * 1024.0, y }, Coord { x: side * 1024.0, y: y + 1.0 }, Coord { x: 0.0, y: 0.0 }]), vec![])
     };
@@ -615,7 +624,8 @@ impl World for C18World {
             partial: if r.chance(1, 2) { r.below(n + 1) } else { n - logu(&mut r, 0.0, (n.max(2) as f64).log10()).min(n) },
             op: match kind {
                 "boolean_stairs" => (*r.pick(&["union", "xor"])).into(),
-                "boolean_nested" | "boolean_grid" => (*r.pick(&["union", "xor", "intersection", "difference"])).into(),
+                "boolean_nested" => (*r.pick(&["union", "xor", "intersection", "difference", "intersection_dot", "difference_dot"])).into(),
+                "boolean_grid" => (*r.pick(&["union", "xor", "intersection", "difference"])).into(),
                 "boolean_fan" | "boolean_row" => (*r.pick(&["union", "xor", "difference"])).into(),
                 _ => (*r.pick(&["intersection", "difference"])).into(),
             },
